@@ -85,7 +85,7 @@ def mean_plane_planar(pts):
     if all(not isinstance(x, SR) and float(x) == float(p[0][2]) for x in p[:, 2]):
         return np.array([0.0, 0.0, 1.0])
     if NORMAL["v"] is not None:
-        return np.array([SR(sr.lift(x)) for x in NORMAL["v"]], dtype=object)       # exact rational unit normal
+        return np.array([x if isinstance(x, SR) else SR(sr.lift(x)) for x in NORMAL["v"]], dtype=object)       # the (symbolic or exact rational) unit normal
     raise AssertionError("mean_plane called outside its modelled contract")
 
 
@@ -266,6 +266,78 @@ def g_step(ni, sa, sb):
     return f
 
 
+def g_step_sym(sa, sb):
+    """one step from an arbitrary state in which the three neighbours of the centre span ANY tilted plane: unit normal n symbolic (n_z != 0, |n_z| < 1),
+    in-plane positions, centre and the atom behind the marked neighbour symbolic.  The state X gets the mark (+1), its mirror image MX the
+    mirrored mark (-1); LAPACK's sign of the normal is free in both runs (sa, sb).  rotation_matrix_from_vectors runs as it is on the symbolic
+    normal; numpy.linalg.inv is served by adjugate / determinant."""
+    T = T_STEP
+
+    def f():
+        saved = _shims()
+        try:
+            n = vec("n")
+            CTX.assume(E(n @ n) == 1, E(n[2]) != 0, E(n[2] * n[2]) < 1)
+            ez = np.array([0, 0, 1], dtype=object)
+            u = np.cross(n, ez)
+            w = np.cross(n, u)
+            o = vec("o")
+            nb = [o + sr.sym(f"s{i}") * u + sr.sym(f"t{i}") * w for i in (1, 2, 3)]
+            c, q = vec("c"), vec("q")
+            X = [c] + nb + [q]
+            d = nb[0] - c
+            CTX.assume(E(d[0] * d[0] + d[1] * d[1]) > 0)                   # the marked bond is visible on the page
+            cr = np.cross(nb[1] - nb[0], nb[2] - nb[0])
+            CTX.assume(E(cr @ cr) > 0)                                     # the three neighbours span their plane
+            M = np.array([1, 1, -1], dtype=object)
+            MX = [x * M for x in X]
+            NORMAL["v"] = list(sa * n)
+            A, okA = _run3d(T, X, +1)
+            NORMAL["v"] = list(sb * (n * M))
+            B, okB = _run3d(T, MX, -1)
+            lab = f"tilted centre, any plane, svd signs ({sa:+d},{sb:+d})"
+            va = _vol(A, 0, (1, 2, 3))
+            goals = [(f"{lab}: constitution unchanged", z3.BoolVal(not (okA and okB))),
+                     (f"control: {lab}: centre can be non-planar (must be sat)", E(va) != 0)]
+            goals += [(f"{lab}: model of the mirrored drawing = mirror image of the model, atom {i} [{k}] (=> handedness inverted)", E(B[i][k]) != E(A[i][k]) * (1 if k < 2 else -1))
+                      for i in (1, 4) for k in range(3)]
+            for i in T["fixed"]:
+                goals += [(f"{lab}: atom {i} stays [{k}]", z3.Or(E(A[i][k]) != E(X[i][k]), E(B[i][k]) != E(MX[i][k]))) for k in range(3)]
+            return goals
+        finally:
+            NORMAL["v"] = None
+            _unshim(saved)
+    return f
+
+
+def replay_step_sym(sa, sb):
+    def rp(goal, model, path):
+        n = np.array([sr.fval(model, f"n{k}") for k in range(3)])
+        u = np.cross(n, [0, 0, 1.0])
+        w = np.cross(n, u)
+        o = np.array([sr.fval(model, f"o{k}") for k in range(3)])
+        c = np.array([sr.fval(model, f"c{k}") for k in range(3)])
+        q = np.array([sr.fval(model, f"q{k}") for k in range(3)])
+        nb = [o + sr.fval(model, f"s{i}") * u + sr.fval(model, f"t{i}") * w for i in (1, 2, 3)]
+        return _turn_and_check(np.array([c] + nb + [q]))
+    return rp
+
+
+def _turn_and_check(X0):
+    """the solver chose the sign LAPACK gives the normal; the real SVD cannot be told which sign to return, so the model's geometry is replayed as it
+    is and turned about the viewing axis in 1-degree steps until the real code (real SVD) shows the violation"""
+    first = None
+    for deg in range(0, 360):
+        th = math.radians(deg)
+        Rz = np.array([[math.cos(th), -math.sin(th), 0], [math.sin(th), math.cos(th), 0], [0, 0, 1]])
+        ok, detail = _numeric_step(X0 @ Rz.T)
+        if first is None:
+            first = detail
+        if not ok:
+            return False, detail
+    return True, "model and its 359 turns about the viewing axis all pass with the real SVD: " + first
+
+
 def replay_step(ni, sa, sb):
     n = np.array([float(x) for x in NORMALS[ni]])
 
@@ -278,18 +350,7 @@ def replay_step(ni, sa, sb):
         c = np.array([sr.fval(model, f"c{k}") for k in range(3)])
         q = np.array([sr.fval(model, f"q{k}") for k in range(3)])
         nb = [o + sr.fval(model, f"s{i}") * uf + sr.fval(model, f"t{i}") * wf for i in (1, 2, 3)]
-        X0 = np.array([c] + nb + [q])
-        first = None
-        for deg in range(0, 360):
-            th = math.radians(deg)
-            Rz = np.array([[math.cos(th), -math.sin(th), 0], [math.sin(th), math.cos(th), 0], [0, 0, 1]])
-            X = X0 @ Rz.T
-            ok, detail = _numeric_step(X)
-            if first is None:
-                first = detail
-            if not ok:
-                return False, detail
-        return True, "model and its 359 turns about the viewing axis all pass with the real SVD: " + first
+        return _turn_and_check(np.array([c] + nb + [q]))
     return rp
 
 
@@ -732,8 +793,8 @@ def run(rep, tier):
     rep.models_validated += validate_mean_plane() + validate_element_model()
     rep.bounds = {"SR single mark": "planar drawings with ALL page coordinates symbolic reals: a centre with 3 / 4 neighbours (60 / 90 degree branch) and atoms behind two of them, a four-membered ring with substituents "
                                     "(ring-bond branch); marks Wedge/WedgedHash (sign +-1) and Bold/Hash (sign +-2)",
-                  "SR further mark": f"one step from an arbitrary state whose three neighbours span a tilted plane (unit normal from a menu of {len(NORMALS)} rational directions, in-plane positions, centre and substituent symbolic); "
-                                     "the model and its mirror image get mirrored marks; the sign LAPACK gives the normal is free in both runs",
+                  "SR further mark": "one step from an arbitrary state whose three neighbours span ANY tilted plane (unit normal symbolic with n_z != 0 and |n_z| < 1; in-plane positions, centre and substituent symbolic); "
+                                     "the model and its mirror image get mirrored marks; the sign LAPACK gives the normal is free in both runs; cross-checked on rational normals",
                   "XH constitution": "fragments of 2-5 nodes (4 graphs): charges in [-4,4], isotopes in [1,300], hydrogen counts in [0,4] symbolic ints rendered into attribute strings (absent or present); elements from "
                                      f"{ELEMS}, radicals {RADS}, attachment point on any of the first three nodes, bond orders {ORDERS}, one stereo mark from {MARKS[1:]} on either of the first two bonds, 3 id numberings, "
                                      "nodes listed forwards / backwards, 3 page offsets",
@@ -741,7 +802,7 @@ def run(rep, tier):
                                 "two more lookups by label or position [selector-bound]"}
     rep.outside = ["label -> fragment resolution for arbitrary page geometry (scipy's KDTree is not encoded; lookups are exercised on generated pages with each label below its fragment, and on nothing else)",
                    "nested fragments (Molecule.join is C12's subject), multi-attachment (hapto) centres, 'Triplet' radicals, dashed (dative) bonds",
-                   "marks on centres whose neighbours are neither flat nor exactly in one of the menu planes; more than one earlier mark; reals, not floats",
+                   "centres with four neighbours that are no longer flat (mean plane = least squares, not encoded), neighbour planes edge-on to the viewer (n_z = 0); reals, not floats",
                    "the SVD inside mean_plane: contract 'flat point set -> +z' (validated against numpy each run) and 'tilted plane -> +- its unit normal, sign free'"]
     rep.assumptions = ["SR: mean_plane replaced by its contract; math.sin/cos of the concrete angles are the float values molli computes, lifted exactly to rationals",
                        "XH: ElementTree elements replaced by a pure-Python element model (validated on every fragment of every bundled CDXML file: same find/findall answers, same parsed molecule)"]
@@ -750,8 +811,9 @@ def run(rep, tier):
     jobs = []
     for tname, mag in SR_CASES:
         jobs.append((f"mark[{tname},{mag}]", g_mark(tname, mag), replay_mark(tname, mag)))
-    nsel = range(2) if q else range(len(NORMALS))
-    for ni in nsel:
+    for sa, sb in itertools.product((1, -1), (1, -1)):
+        jobs.append((f"stepsym[{sa:+d},{sb:+d}]", g_step_sym(sa, sb), replay_step_sym(sa, sb)))
+    for ni in (range(1) if q else range(len(NORMALS))):                    # the same step on concrete rational normals (cross-check of the symbolic one)
         for sa, sb in itertools.product((1, -1), (1, -1)):
             jobs.append((f"step[{ni},{sa:+d},{sb:+d}]", g_step(ni, sa, sb), replay_step(ni, sa, sb)))
     for label, fn, rp in jobs:
@@ -777,5 +839,8 @@ def replay(d):
     m = re.match(r"mark\[(\w+),(\d)\]", d["label"])
     if m:
         return replay_mark(m.group(1), int(m.group(2)))(d["goal"], d["model"], None)
+    m = re.match(r"stepsym\[([+-]\d),([+-]\d)\]", d["label"])
+    if m:
+        return replay_step_sym(int(m.group(1)), int(m.group(2)))(d["goal"], d["model"], None)
     m = re.match(r"step\[(\d+),([+-]\d),([+-]\d)\]", d["label"])
     return replay_step(int(m.group(1)), int(m.group(2)), int(m.group(3)))(d["goal"], d["model"], None)
